@@ -231,10 +231,13 @@ func (g *vGenC04) tokQuoted(class string) string {
 	return g.scan.add(class, t, false)
 }
 
-func (g *vGenC04) content(t *rapid.T, kinds *[]string) []byte {
+func (g *vGenC04) content(t *rapid.T, kinds *[]string, nonEmpty bool) []byte {
 	k := rapid.SampledFrom([]string{"tiny", "tiny", "compressible", "compressible", "entropy", "entropy", "mixed", "empty", "large"}).Draw(t, "ckind")
 	if k == "large" && rapid.IntRange(0, 3).Draw(t, "largeRare") != 0 {
 		k = "compressible"
+	}
+	if k == "empty" && nonEmpty {
+		k = "tiny" // the content carrier class must be present in every case
 	}
 	*kinds = append(*kinds, k)
 	switch k {
@@ -293,11 +296,11 @@ func (g *vGenC04) tree(t *rapid.T, tr map[string]*vEntC04, dirs *[]string, nEnt 
 		tr[p] = &vEntC04{Rel: p, Kind: 'd'}
 		*dirs = append(*dirs, p)
 		p = mk(g.tokQuoted("name"))
-		tr[p] = &vEntC04{Rel: p, Kind: 'f', Content: g.content(t, kinds)}
+		tr[p] = &vEntC04{Rel: p, Kind: 'f', Content: g.content(t, kinds, true)}
 		p = mk(g.tok("name") + ".lnk")
 		tr[p] = &vEntC04{Rel: p, Kind: 'l', Target: "../" + g.tok("linktarget") + "/x"}
 		p = mk(g.tok("name") + ".xa")
-		tr[p] = &vEntC04{Rel: p, Kind: 'f', Content: g.content(t, kinds), Xattrs: map[string][]byte{
+		tr[p] = &vEntC04{Rel: p, Kind: 'f', Content: g.content(t, kinds, false), Xattrs: map[string][]byte{
 			"user." + g.tok("xattr"): append([]byte{0, 0xff, 1}, g.tok("xattrval")...),
 		}}
 	}
@@ -313,12 +316,12 @@ func (g *vGenC04) tree(t *rapid.T, tr map[string]*vEntC04, dirs *[]string, nEnt 
 			tr[p] = &vEntC04{Rel: p, Kind: 'l', Target: g.tok("linktarget")}
 		case k == 3:
 			p := mk(name)
-			tr[p] = &vEntC04{Rel: p, Kind: 'f', Content: g.content(t, kinds), Xattrs: map[string][]byte{
+			tr[p] = &vEntC04{Rel: p, Kind: 'f', Content: g.content(t, kinds, false), Xattrs: map[string][]byte{
 				"user." + g.tok("xattr"): []byte(g.tok("xattrval")),
 			}}
 		default:
 			p := mk(name)
-			tr[p] = &vEntC04{Rel: p, Kind: 'f', Content: g.content(t, kinds)}
+			tr[p] = &vEntC04{Rel: p, Kind: 'f', Content: g.content(t, kinds, false)}
 		}
 	}
 }
